@@ -98,7 +98,7 @@ class H:
                  cbmc=(), fp=None, caps=None, objbits=12, leak=False, alloc=False, models=(),
                  timeout=None, note='', inputs='', bounds='', incdirs=(), src_defines=(),
                  unconfirmed_ok=(), functions=(), maxdeepen=None, extra_srcs=(), unwind_default=1,
-                 solver=None, nowitness=False, exclude=None, roots=None, partial_deepen=False, snapshot=False, model_defines=()):
+                 solver=None, nowitness=False, exclude=None, roots=None, partial_deepen=False, snapshot=False, model_defines=(), native_extra=()):
         self.name = name
         self.src = src                      # path relative to /verif/harness
         self.sources = list(sources)        # repo-relative C files
@@ -128,6 +128,7 @@ class H:
         self.partial_deepen = partial_deepen
         self.snapshot = snapshot
         self.model_defines = list(model_defines)
+        self.native_extra = list(native_extra)   # repo-relative sources linked only into the native replay
         self.roots = roots                  # root descriptor objects for table reachability
         self.exclude = exclude              # regex: functions never offered as function-pointer targets
 
@@ -620,6 +621,9 @@ class Replayer:
                 for f in sorted(os.listdir(skd)):
                     if f.endswith('.c') and f != 'converter-example.c' and f not in have:
                         todo.append((os.path.join(skd, f), sflags))
+            for e in h.native_extra:
+                incs2 = [y for d in h.incdirs for y in ('-I', os.path.join(self.stage.src, d))]
+                todo.append((os.path.join(self.stage.src, e), ['-I', self.stage.src] + incs2))
             with cf.ThreadPoolExecutor(max_workers=8) as ex:
                 objs = list(ex.map(lambda t: self.stage.obj(t[0], flags + t[1], native=True), todo))
             hflags = flags + ['-I', rdir] + [x for x in build['hflags'] if not x.startswith('-D__builtin_nanf')] + list(variant_defs)
